@@ -9,6 +9,7 @@ import (
 	"math"
 	"math/big"
 	"regexp"
+	"sort"
 	"strconv"
 	"strings"
 	"unicode/utf8"
@@ -815,16 +816,17 @@ func (n *Node) print(b *strings.Builder, on map[*Node]bool, depth int) {
 			}
 			b.WriteByte(']')
 		case Map:
-			b.WriteString("{")
+			// entries in a canonical (sorted) order: a map is unordered
+			var entries []string
 			for i := 0; i+1 < len(n.Elems); i += 2 {
-				if i > 0 {
-					b.WriteByte(' ')
-				}
-				n.Elems[i].print(b, on, depth+1)
-				b.WriteByte(':')
-				n.Elems[i+1].print(b, on, depth+1)
+				var e strings.Builder
+				n.Elems[i].print(&e, on, depth+1)
+				e.WriteByte(':')
+				n.Elems[i+1].print(&e, on, depth+1)
+				entries = append(entries, e.String())
 			}
-			b.WriteString("}")
+			sort.Strings(entries)
+			b.WriteString("{" + strings.Join(entries, " ") + "}")
 		case Object:
 			b.WriteString(n.Class.Name + "{")
 			for i, e := range n.Elems {
